@@ -219,6 +219,20 @@ def run_js_leg(spec, res):
                     res.violation('js-split-fields-or-warning', 'JS smart_split(%r, %r) -> %r, reference %r' % (line, dlm, (o['fields'], o['warning']), ref), {'line': line, 'dlm': dlm, 'mode': 'js'})
                 if dlm.join(o['pfields']) != line or o['pfields'] != refp[0]:
                     res.violation('js-preserve-rejoin', 'JS preserving split(%r, %r) -> %r' % (line, dlm, o['pfields']), {'line': line, 'dlm': dlm, 'mode': 'js'})
+            # the same lines as one-line files through the JS CSV reader (bulk and stream): however the reader dispatches to the splitter (fast paths for
+            # "lines without quoted fields" included), a line read under the quoted policy gives the fields and the warning of the splitter
+            rsample = [(l, d) for k_, (l, d) in enumerate(chunk) if k_ % 6 == 0 and l and '\n' not in l and '\r' not in l]
+            if rsample:
+                rout = node.call({'op': 'read_batch', 'cases': [{'bytes_hex': l.encode('utf-8').hex(), 'chunks': (None if k_ % 2 else [len(l.encode('utf-8'))]), 'encoding': 'utf-8', 'delim': d, 'policy': 'quoted',
+                                                                  'has_header': False, 'comment_prefix': None} for k_, (l, d) in enumerate(rsample)]})['results']
+                for (line, dlm), o in zip(rsample, rout):
+                    res.evaluations += 1
+                    res.count('js_reader_line_splits')
+                    ref = refcsv.split_quoted(line, dlm)
+                    warned = any('quot' in w.lower() for w in (o.get('warnings') or []))
+                    if o['error'] is not None or o['records'] != [ref[0]] or warned != bool(ref[1]):
+                        res.violation('js-reader-line-split-differs-from-splitter', 'JS CSVRecordIterator over the one-line file %r (quoted, %r) -> records %r warnings %r error %r ; the splitter gives %r' % (
+                            line, dlm, o['records'], o.get('warnings'), o['error'], ref), {'line': line, 'dlm': dlm, 'mode': 'js-reader'})
             # the plain policies on the same lines: simple is a plain split, whitespace splits on runs of spaces, monocolumn does not split; quotes are ordinary characters
             plain = [(l, d, pol) for l, d in chunk for pol in (('simple', 'monocolumn', 'whitespace') if d == ' ' else ('simple', 'monocolumn'))]
             out = node.call({'op': 'split_batch', 'cases': [{'line': l, 'dlm': d, 'policy': pol} for l, d, pol in plain]})
@@ -236,7 +250,7 @@ def summarize(tier, seed, m):
     return {
         'rule': 'exhaustive lines over the class alphabet {quote, delimiter, space, other (+ first char of a multi-character delimiter)} up to %d symbols (%d for 5-symbol alphabets) per delimiter in %r, each through csv_utils.smart_split (both preserve modes, 5 policies) and through CSVRecordIterator on a one-line stream; random relabelling of "other" by Unicode; %d random long lines; JS smart_split on the same lines (quoted, and the plain policies simple / whitespace / monocolumn). the same exhaustive enumeration with other white space added to the alphabet (tab, vertical tab, NBSP: only U+0020 is padding around a quoted field) for , ; and | (py) and , ; (js); distinct_nontrivial = distinct (line, delimiter) pairs containing at least one double quote (the fast path handles the others).' % (MAXLEN[tier], MAXLEN_MULTI[tier], DELIMS, RANDOM_LINES[tier]),
         'exhaustive': True,
-        'required': ['reader_runs', 'exhaustive_lines', 'js_split_calls', 'js_plain_policy_split_calls'],
+        'required': ['js_reader_line_splits', 'reader_runs', 'exhaustive_lines', 'js_split_calls', 'js_plain_policy_split_calls'],
         'assumptions': ['rv.model.refcsv.split_quoted is the documented dialect', 'characters outside {quote, delimiter chars, space} are interchangeable for the splitter (sampled by the relabelling leg)'],
     }
 
